@@ -32,6 +32,10 @@ pub const ODD_POLICIES: &[&str] = &[
     r#"permit(principal, action, resource) when { context.n + 9223372036854775807 > 0 };"#,
     r#"permit(principal, action, resource);"#,
     r#"forbid(principal, action == Action::"edit", resource) when { context.n > 2 };"#,
+    // validate with warnings but no errors
+    r#"permit(principal, action, resource) when { false };"#,
+    r#"permit(principal, action == Action::"browse", resource) when { resource.depth > 3 && false };"#,
+    r#"@note("\u{202e}bidi") permit(principal, action, resource) when { principal.level > 1 && "a\u{202e}b" == "x" };"#,
 ];
 
 pub const SCHEMA_VARIANT: &str = r#"
@@ -620,6 +624,9 @@ fn do_validate(step: usize, ps: &PsDoc, render: u8, sidx: u8, srender: u8, permi
             if !want_e.is_empty() {
                 out.counts.push(("reach.validation_errors_reported", 1));
             }
+            if want_e.is_empty() && !want_w.is_empty() {
+                out.counts.push(("reach.validation_warnings_without_errors", 1));
+            }
             if !matches(&got_e, &want_e) {
                 out.violation = viol("ffi_validation_errors", "validate_json errors", step, format!("{want_e:?}"), format!("{got_e:?}"));
             } else if !matches(&got_w, &want_w) {
@@ -1139,11 +1146,30 @@ impl World for Frontends {
                     let mut fr = Rng::sub(seed ^ ops.len() as u64, "faults");
                     let kind = *fr.pick(&[0u8, 0, 0, 0, 1, 1, 2, 3, 4, 5]);
                     let nf = *fr.pick(&[0usize, 0, 0, 1, 1, 2]);
-                    let faults = (0..nf).map(|_| crate::worlds::frontends_cli::FileFault { file: fr.below(5) as u8, kind: fr.range(1, 6) as u8, arg: fr.next() as u32 }).collect();
+                    let faults = (0..nf).map(|_| crate::worlds::frontends_cli::FileFault { file: fr.below(6) as u8, kind: fr.range(1, 6) as u8, arg: fr.next() as u32 }).collect();
                     let schema = if kind == 1 || kind == 3 { Some((schema_pick(&mut rng), 0)) } else if kind == 4 { Some((schema_pick(&mut rng), 1)) } else if rng.pct(55) { Some((schema_pick(&mut rng), rng.below(2) as u8)) } else { None };
+                    // request validation switched off matters exactly when the request does not conform
+                    let request_validation = rng.pct(65);
+                    let req = if !request_validation && rng.pct(70) {
+                        let mut r = gen_req_valid(&mut rng);
+                        match rng.below(3) {
+                            0 => r.r = format!("User::\"u{}\"", rng.below(4)),
+                            1 => r.p = "Group::\"g0\"".to_string(),
+                            _ => {
+                                if let Some(o) = r.ctx.as_object_mut() {
+                                    o.insert("undeclared".into(), json!(1));
+                                }
+                            }
+                        }
+                        r
+                    } else if rng.pct(80) {
+                        gen_req_valid(&mut rng)
+                    } else {
+                        gen_req(&mut rng)
+                    };
                     Op::Cli {
                         thread,
-                        cli: crate::worlds::frontends_cli::CliOp { kind, ps: rng.below(psets.len()) as u8, store: rng.below(stores.len()) as u8, schema, req: gen_req_valid(&mut rng), verbose: rng.pct(50), request_validation: rng.pct(75), faults, hash_seed: hs.next() },
+                        cli: crate::worlds::frontends_cli::CliOp { kind, ps: rng.below(psets.len()) as u8, store: rng.below(stores.len()) as u8, schema, req, verbose: rng.pct(50), request_validation, request_json: rng.pct(40), faults, hash_seed: hs.next() },
                     }
                 }
             };
@@ -1213,7 +1239,7 @@ impl World for Frontends {
         ]
     }
     fn reach_probes(&self) -> Vec<&'static str> {
-        vec!["reach.reregistration_over_live_name", "reach.failed_reregistration_over_live_name", "reach.stateful_answered_from_cache", "reach.stateful_unregistered_name", "reach.validation_errors_reported"]
+        vec!["reach.reregistration_over_live_name", "reach.failed_reregistration_over_live_name", "reach.stateful_answered_from_cache", "reach.stateful_unregistered_name", "reach.validation_errors_reported", "reach.validation_warnings_without_errors"]
     }
 }
 
